@@ -308,6 +308,38 @@ func checkC07(c *Ctx, w *World) {
 	}
 	c.check(len(bad) == 0 && !rem, "C07.graceful", "refresh: write set", p.pos(refresh.Pos()), "refresh() writes only the flag and the replacement registry and removes nothing: the old connection keeps serving", "starting a refresh disturbs the serving connection: writes "+strings.Join(bad, ",")+fmt.Sprintf(" remove=%v", rem))
 
+	// ---- C07.enable: the first conjunct of the rule is the flag; it must mean "both thresholds configured (> 0)"
+	if ic := pl.f("(*gcpBalancer).initializeConfig"); ic != nil {
+		pl.whoMayWrite("C07.enable", "gcpBalancer.unresponsiveDetection", map[string][]string{fname(ic): {"store"}})
+		isGetter := func(suffix string) vpred {
+			return func(v ssa.Value) bool {
+				_, ok := staticCallNamed(stripConv(v), suffix)
+				return ok
+			}
+		}
+		atoms := []atomDef{lenZeroAtom("callsZero", isGetter(".GetUnresponsiveCalls")), lenZeroAtom("msZero", isGetter(".GetUnresponsiveDetectionMs"))}
+		ecs := newCondSpace(ic, recOf(atoms...), atomNames(atoms...)...)
+		nst := 0
+		for _, a := range pl.ai.ByFn[ic] {
+			if a.Field != "gcpBalancer.unresponsiveDetection" || a.What != "store" {
+				continue
+			}
+			nst++
+			st := a.Instr.(*ssa.Store)
+			val, ok := ecs.EvalValue(st.Val)
+			if !ok {
+				c.undecided("C07.enable", "detection flag value", p.ipos(st), "the stored value is not a boolean function of the two configured thresholds: "+vstr(st.Val))
+				continue
+			}
+			// compared where the store is reached (a phi's value is only defined there)
+			want := ecs.And(ecs.Not(ecs.Atom("callsZero")), ecs.Not(ecs.Atom("msZero")))
+			diff := and(ecs.Reach(st), or(and(val, ecs.Not(want)), and(ecs.Not(val), want)))
+			eq, wit := ecs.Implies(diff, ecs.False())
+			c.check(eq, "C07.enable", "detection flag value", p.ipos(st), "detection enabled ⇔ unresponsive_calls > 0 ∧ unresponsive_detection_ms > 0 (both thresholds configured)", "detection is enabled under a different condition than 'both thresholds > 0' (with one threshold zero a single deadline-exceeded call, or elapsed time alone, would trigger a refresh): "+wit)
+		}
+		c.floor("C07.enable", nst, 1)
+	}
+
 	// ---- C07.swap
 	checkSwap(pl)
 	// "the replacement takes over the channel (its bound keys, …)": every connection-indexed table follows the swap
